@@ -414,7 +414,7 @@ def m_collect(x, r, a, e):
         h = hint(e, items)
         if h is not None:
             return h
-    if items and all(isinstance(i, CharV) for i in items) or 'String' in tf:
+    if (items and all(isinstance(i, CharV) for i in items)) or 'String' in tf or (x.type_hint or '') == 'String':
         return VStr([i.t for i in items])
     if items and all(isinstance(i, Buffer) for i in items) and 'Vec<Vec' not in tf and False:
         return VVec(items)
